@@ -20,7 +20,9 @@ DocSeq == <<
          Obj(<<n1_, x_>>, <<S(<<111, 110, 101>>), Arr(<<>>)>>),
          S(<<123, 34, 120, 34, 58, 32, 49, 125>>),         \* the string {"x": 1}: JSON text is still a primitive
          S(<<91, 49, 44, 32, 50, 93>>) >>),                \* the string [1, 2]
-  Arr(<<Arr(<<IntV(0), Arr(<<IntV(1), IntV(2)>>), IntV(3)>>), Obj(<<x_>>, <<Arr(<<Obj(<<y_>>, <<IntV(0)>>), Obj(<<y_>>, <<Bool(FALSE)>>)>>)>>), IntV(4)>>) >>
+  Arr(<<Arr(<<IntV(0), Arr(<<IntV(1), IntV(2)>>), IntV(3)>>), Obj(<<x_>>, <<Arr(<<Obj(<<y_>>, <<IntV(0)>>), Obj(<<y_>>, <<Bool(FALSE)>>)>>)>>), IntV(4)>>),
+  \* arrays long enough for indices of one and of two digits (10 sorts before 2 as text, after it as a number)
+  Obj(<<a_, b_>>, <<Obj(<<y_>>, <<Arr([i \in 1..12 |-> IntV(100 + i)])>>), Arr([i \in 1..12 |-> Obj(<<x_>>, <<IntV(i)>>)])>>) >>
 
 MatchQueries == { Q("$", <<Child(SName(a_))>>), Q("$", <<Child(SName(b_)), Child(SWild)>>), Q("$", <<Child(SName(b_))>>), Q("$", <<>>),
                   Q("$", <<Child(SName(a_)), Child(SName(y_))>>), Q("$", <<Descend(SName(z_))>>), Q("$", <<Child(SName(a_)), Child(SName(x_))>>),
@@ -31,6 +33,7 @@ RelQueries == { Q("$", <<Child(SName(x_))>>), Q("$", <<Child(SName(y_))>>), Q("$
                 Q("$", <<Child(SIndex(1)), Child(SName(x_))>>), Q("$", <<Child(SWild), Child(SName(x_))>>), Q("$", <<Seg(FALSE, <<SIndex(0), SIndex(2)>>)>>),
                 Q("$", <<Child(SIndex(2)), Child(SIndex(1))>>), Q("$", <<Child(SName(b_))>>), Q("$", <<Child(SName(n1_))>>), Q("$", <<Child(SWild), Child(SName(y_))>>),
                 Q("$", <<Child(SIndex(1)), Child(SName(x_)), Child(SWild), Child(SName(y_))>>), Q("$", <<Child(SName(x_)), Child(SIndex(1))>>),
+                Q("$", <<Child(SName(y_)), Seg(FALSE, <<SIndex(2), SIndex(10)>>)>>), Q("$", <<Child(SName(y_)), Child(SSlice(<<8>>, <<12>>, <<>>))>>),
                 \* negative indices address the same elements as their normalized spelling
                 Q("$", <<Child(SName(<<233>>))>>), Q("$", <<Child(SName(y_)), Child(SIndex(-1))>>), Q("$", <<Child(SIndex(-1))>>), Q("$", <<Child(SIndex(-1)), Child(SName(x_))>>) }
 
